@@ -181,3 +181,67 @@ def concrete(v):
         x = s.model().eval(v, model_completion=True)
         return True if _z3.is_true(x) else False if _z3.is_false(x) else x.as_long()
     return v
+
+
+# ------------------------------------------------------------------------------------------------ sensitivity self-test
+def ast_mutants(func, limit: int = 8):
+    """Small syntactic mutants of a function's current AST (flipped comparisons, or<->and, dropped strip calls, dropped
+    table entries, negated conditions).  Used only to show that a query CAN fail: 'k of n mutants detected'."""
+    import ast
+    import copy
+    import inspect
+    import textwrap
+
+    func = inspect.unwrap(func.__func__ if isinstance(func, (staticmethod, classmethod)) else func)
+    tree = ast.parse(textwrap.dedent(inspect.getsource(func))).body[0]
+    sites = []
+    for i, nd in enumerate(ast.walk(tree)):
+        if isinstance(nd, ast.Compare) and isinstance(nd.ops[0], (ast.Eq, ast.NotEq, ast.Lt, ast.Gt, ast.In, ast.NotIn)):
+            sites.append((i, "cmp"))
+        elif isinstance(nd, ast.BoolOp):
+            sites.append((i, "bool"))
+        elif isinstance(nd, ast.Call) and isinstance(nd.func, ast.Attribute) and nd.func.attr in ("lstrip", "rstrip", "upper", "endswith", "startswith"):
+            sites.append((i, "call"))
+        elif isinstance(nd, ast.Set) and len(nd.elts) > 2:
+            sites.append((i, "set"))
+        elif isinstance(nd, ast.UnaryOp) and isinstance(nd.op, ast.Not):
+            sites.append((i, "not"))
+    step = max(1, len(sites) // limit)
+    for idx, kind in sites[::step][:limit]:
+        t2 = copy.deepcopy(tree)
+        nd = list(ast.walk(t2))[idx]
+        if kind == "cmp":
+            flip = {ast.Eq: ast.NotEq, ast.NotEq: ast.Eq, ast.Lt: ast.GtE, ast.Gt: ast.LtE, ast.In: ast.NotIn, ast.NotIn: ast.In}
+            nd.ops[0] = flip[type(nd.ops[0])]()
+        elif kind == "bool":
+            nd.op = ast.And() if isinstance(nd.op, ast.Or) else ast.Or()
+        elif kind == "call":
+            if nd.func.attr in ("endswith", "startswith"):
+                nd.func.attr = "startswith" if nd.func.attr == "endswith" else "endswith"
+            else:
+                recv = nd.func.value
+                nd.func = ast.Name(id="str", ctx=ast.Load())
+                nd.args = [recv]
+        elif kind == "set":
+            del nd.elts[len(nd.elts) // 2]
+        else:
+            nd.op = ast.UAdd()
+        ast.fix_missing_locations(t2)
+        yield kind, t2
+
+
+def selftest(job: "KJob", qid: str, func, build) -> None:
+    """build(node) -> (assumptions, claim) with the evaluator run on the given (mutated) function node.
+    The query passes the self-test if at least one mutant makes it fail (sat)."""
+    detected = total = 0
+    for _kind, node in ast_mutants(func):
+        try:
+            assume, claim = build(node)
+        except Exception:  # noqa: BLE001  (a mutant may leave the supported subset: not counted)
+            continue
+        total += 1
+        r, _, _, _ = job._check([*assume, z3.Not(claim)], 60_000)
+        detected += r == "sat"
+    ok = total == 0 or detected >= 1
+    job.queries.append({"id": f"{qid}#selftest", "verdict": "holds" if ok else "harness_error", "seconds": 0, "bound": "self-test",
+                        "detail": f"{detected} of {total} syntactic mutants of the real AST make the query fail"})
